@@ -306,6 +306,7 @@ def main(argv=None):
 
     # ---- verdict
     status = 0
+    lost_proof = False
     if errors:
         for o in errors[:3]:
             print("CHECKER-ERROR property=%s scenario=%s case=%s\n%s" % (prop, o["scenario"], o["case_id"], o["error"]))
@@ -317,13 +318,21 @@ def main(argv=None):
     if nviol:
         status = 1 if status != 3 else 3
     elif status == 0 and (unknown or undecided or missing):
-        status = 2
+        # Lost proof (DESIGN section 4): some obligation could not be decided deductively (solver 'unknown', a construct outside
+        # the engine, an obligation of the locked baseline not generated).  That is never an alarm.  If the bounded run-time
+        # contract checks of the same scenarios ran on the real code and found nothing, the property is reported as held at the
+        # bounded level only (exit 0, level downgraded in the evidence); without any such evidence the verdict is 'undecided' (2).
+        tag = "LOST-PROOF" if conc_runs > 0 else "UNDECIDED"
+        status = 0 if conc_runs > 0 else 2
+        lost_proof = True
         for r in unknown[:5]:
-            print("UNDECIDED property=%s obligation=%s case=%s (solver: unknown)" % (prop, r["name"], r["case"]))
+            print("%s property=%s obligation=%s case=%s (solver: unknown)" % (tag, prop, r["name"], r["case"]))
         for scn, c, why in undecided[:5]:
-            print("UNDECIDED property=%s scenario=%s case=%s %s" % (prop, scn, c, why))
+            print("%s property=%s scenario=%s case=%s %s" % (tag, prop, scn, c, why))
         for n in missing[:5]:
-            print("UNDECIDED property=%s obligation %s of the locked baseline was not generated" % (prop, n))
+            print("%s property=%s obligation %s of the locked baseline was not generated" % (tag, prop, n))
+        if status == 0:
+            print("LOST-PROOF property=%s: held at the bounded level only (%d run-time contract checks on the real code, no violation)" % (prop, conc_runs))
     n_obl = len(inst)
     n_dis = sum(1 for r in inst if r["status"] == "proved")
     if status == 0 and n_obl == 0:
@@ -341,7 +350,7 @@ def main(argv=None):
                             "runtime_checks_on_real_code": conc_counts.get(n, 0), "known_finding": n in known,
                             "decided_by": "proof" if rs else "bounded run-time check only (never counted as proved)"})
         level = getattr(mod, "LEVEL", "proof")
-        if n_dis < n_obl and level == "proof":
+        if (n_dis < n_obl or lost_proof) and level == "proof":
             level = "other"
         ev = {
             "property_id": prop, "tier": tier, "seed": seed, "level": level, "wall_s": round(time.time() - t0, 2), "violations": nviol,
@@ -361,7 +370,7 @@ def main(argv=None):
                 "numpy_ops_seen_per_scenario": {k: sorted(v) for k, v in oplogs.items()},
                 "known_findings_hit": known_hit, "fixed_defects": [{"commit": c, "what": w} for c, w in fixed],
                 "undecided": [list(u) for u in undecided][:20], "unknown_obligations": [r["name"] + "@" + r["case"] for r in unknown][:20],
-                "exit_status": status,
+                "exit_status": status, "lost_proof": lost_proof,
             },
             "assumptions": list(getattr(mod, "ASSUMPTIONS", [])) + ["%s is replaced by its contract stub: %s" % (k, (v or "").strip().splitlines()[0] if v else "") for k, v in sorted(assumed.items())],
         }
